@@ -510,6 +510,8 @@ def fam_C03(rng, tier):
             op, sid = stream_prefix(s)
             pkts = mkstream(sid)
             data = b''.join(pkts)
+            for _ in range(sum(1 for p in pkts if p == m.pingresp())):
+                s.ping()                  # every PINGRESP of the stream completes a ping: its arrival is observable
             if cutter == 'perpacket':
                 for p in pkts:
                     s.feed(p)
@@ -580,6 +582,16 @@ def fam_C03(rng, tier):
                     ('off513', None, lambda d: [c for c in range(513, len(d), 512)])]
         group(f'c03-exact{gi}', mk, variants)
         gi += 1
+    # two-byte packets (PINGRESP, short DISCONNECT) behind other packets in the same read
+    def tail2(sid):
+        return [m.publish(b'a', b'x', 1, 3, 0, 0, [(11, sid)]), m.pingresp(), m.ack('pubrel', 9), m.pingresp()]
+    def tail2d(sid):
+        return [m.pingresp(), m.publish(b'a', b'y', 0, None, 0, 0, [(11, sid)]), m.disconnect(0, None, 'empty')]
+    for nm, mk in [('c03-tail2', tail2), ('c03-tail2d', tail2d)]:
+        n = len(b''.join(mk(1)))
+        group(nm, mk, [('whole', None, 'perpacket'), ('one', None, lambda d: None), ('fill', 'rd=fill', lambda d: None),
+                       ('bytewise', None, lambda d: list(range(1, len(d))))]
+              + [(f'cut{c}', None, (lambda c: (lambda d: [c]))(c)) for c in range(1, n)])
     # many small packets in one read that totals exactly 512 bytes
     def burst(sid):
         return [m.publish(b'a', b'', 0, None, 0, 0, [(11, sid)]) for _ in range(64)]      # 64 x 8 bytes
@@ -1125,7 +1137,8 @@ def fam_C11(rng, tier):
         else:
             op, pid, sid = s.subscribe(h=h)
             window.append(('suback', pid))
-        while len(window) > (i % 5):
+        near_wrap = 65500 <= i % 65535 <= 65535 or i % 65535 <= 40
+        while len(window) > (6 if near_wrap and i > 1000 else i % 5):
             kind, pid = window.pop(0)
             if kind == 'unsuback':
                 s.feed(m.unsuback(pid, [0]))
@@ -1171,6 +1184,28 @@ def fam_C12(rng, tier):
                 s.ping()
                 s.feed(m.pingresp())
             out.append(s.script())
+    return fam_C12_quota(out)
+
+
+def fam_C12_quota(out):
+    """the size limit and the send quota together: an oversized QoS>0 publish is refused for its size even while the
+    quota is exhausted (and leaves it exhausted), a fitting one for the quota"""
+    i = 0
+    for R in [1, 2]:
+        for qos in [1, 2]:
+            for M in [20, 24, 30, 4294967295, None]:
+                s = Sess(f'c12-quotar{R}q{qos}-{i}')
+                i += 1
+                ps = [(33, R)] + ([(39, M)] if M is not None else [])
+                s.connect(connack_ps=ps)
+                first = [s.publish(1, topic=b'a') for _ in range(R)]            # quota exhausted (8-byte packets)
+                s.publish(qos, fields=[('p', b'0123456789012345678901234567890')], topic=b'topic/x')   # ~45 bytes
+                s.publish(qos, topic=b'a')                                       # fits: refused for the quota
+                s.publish(0, fields=[('p', b'0123456789012345678901234567890')], topic=b'topic/x')
+                s.feed(m.ack('puback', first[0][1]))
+                s.publish(qos, topic=b'a')                                       # one slot again
+                s.publish(qos, topic=b'a')
+                out.append(s.script())
     return out
 
 
@@ -1302,6 +1337,40 @@ def fam_C14(rng, tier):
             for o in range(1, 8):
                 s.add(f'POLL op{o}')
             s.add('POLL st3')
+            out.append(s.script())
+    for kind in ['pub1', 'pub2-rec', 'pub2-comp', 'sub', 'unsub', 'ping', 'pub0']:
+        for failing in [False, True]:
+            s = Sess(f'c14-held-{kind}-{int(failing)}')
+            s.connect()
+            if kind == 'pub1':
+                op, pid = s.publish(1)
+                pk = m.ack('puback', pid, 0x80 if failing else 0)
+            elif kind.startswith('pub2'):
+                op, pid = s.publish(2)
+                if kind == 'pub2-comp':
+                    s.feed(m.ack('pubrec', pid))
+                    pk = m.ack('pubcomp', pid, 0x92 if failing else 0)
+                else:
+                    pk = m.ack('pubrec', pid, 0x80 if failing else 0)
+            elif kind == 'sub':
+                op, pid, sid = s.subscribe()
+                pk = m.suback(pid, [0x80 if failing else 0])
+            elif kind == 'unsub':
+                op, pid = s.unsubscribe()
+                pk = m.unsuback(pid, [0x80 if failing else 0])
+            elif kind == 'ping':
+                op = s.ping()
+                pk = m.pingresp()
+            else:
+                s.add('HOLD op1')
+                op, pid = s.publish(0)
+                pk = None
+            s.add(f'HOLD op{op}')
+            if pk is not None:
+                s.feed(pk)                 # the result sits in the operation's oneshot, the future is not polled
+            s.add('DROPCTX')
+            s.add(f'RELEASE op{op}')       # between the QoS 2 phases for pub2-rec: must fail with ContextExited, not hang
+            s.add(f'POLL op{op}')
             out.append(s.script())
     out += [(n2.replace('c07', 'c14'), l + ['DROPCTX', 'OP 9000 h0 PING'])
             for n2, l in fam_walk(rng, tier, 'c07-w14', 20 if tier == 'quick' else 500, 40,
@@ -1477,6 +1546,17 @@ def fam_C17(rng, tier):
                 s.feed(m.ack('pubrec', pid))
                 s.feed(m.ack('pubcomp', pid))
             s.publish(1, fields=[('p', b'new')])
+            # a second loss of the connection: what was acknowledged on the resumed connection must not come back
+            s.add('FEEDEOF')
+            s.add('SNAP')
+            s.add(f'MARKDISC {min(ago, 2)}')
+            s.add('SETUP')
+            s.add('CONNECT ' + m.kvs([('cid', b'c')] + ([('sei', sei)] if sei is not None else [])))
+            s.feed(m.connack(1, 0, []))
+            s.add('RUN')
+            s.feed(m.ack('puback', 6))
+            s.add('DROPFUT')
+            s.add('SNAP')
             out.append(s.script())
     return out
 
